@@ -326,6 +326,16 @@ CheckRecord(n, pre, m, rec, entered, src) ==
             /\ Diff(n, "prev.payload", Map(e.prev, Pay),   Map(rec.post.prev, Pay))
             /\ IF Delivered(e.prev, rec.post.prev) THEN TRUE
                ELSE Diff(n, "mon.payload.prev", Map(e.prev, Pay), Map(rec.post.prev, Pay))
+            \* C14 : a state whose last transition should carry a payload reads exactly that transition (with that
+            \* payload) through lastTransitionTo() afterwards
+            /\ \A s \in States :
+                  LET k  == e.last[s]
+                      ko == rec.post.last[s]
+                  IN IF k = 0 \/ k > Len(e.prev) THEN TRUE
+                     ELSE IF Pay(e.prev[k]) = 0 THEN TRUE
+                     ELSE IF ko >= 1 /\ ko <= Len(rec.post.prev) /\ rec.post.prev[ko] = e.prev[k] THEN TRUE
+                     ELSE Diff(n, "mon.payload.last", <<s, e.prev[k]>>,
+                               <<s, IF ko >= 1 /\ ko <= Len(rec.post.prev) THEN rec.post.prev[ko] ELSE <<>>>>)
     /\ CheckEvents(n, m.ev, rec.ev)
     /\ Diff(n, "draws", m.draws, rec.draws)
     /\ Diff(n, "plog", IF Has("PLANS") THEN m.plog ELSE <<>>, rec.plog)
